@@ -74,12 +74,16 @@ class Check:
         counts: dict[str, int] = {}
         for o in self.obls:
             counts[o.rule] = counts.get(o.rule, 0) + 1
-        for rule, n in self.floors.items():
-            if counts.get(rule, 0) < n:
-                raise AnalysisError(f'rule {rule}: only {counts.get(rule, 0)} instances matched, floor is {n} '
-                                    f'(anchor vanished or front-end lost sight of it)')
+        short = [(rule, counts.get(rule, 0), n) for rule, n in self.floors.items() if counts.get(rule, 0) < n]
         bad = [o for o in self.obls if not o.ok]
         kn = {norm_key(e['key']): e for e in known if e.get('property') == self.pid and e.get('status') == 'known'}
+        # a rule that matched fewer instances than were confirmed by hand makes the run an analysis error -- unless an unlisted violation was found
+        # anyway: a violation that is in hand is reported as such (the shortfall is printed with it), never masked by the shortfall
+        if short and not any(o.key not in kn for o in bad):
+            rule, got, n = short[0]
+            raise AnalysisError(f'rule {rule}: only {got} instances matched, floor is {n} (anchor vanished or front-end lost sight of it)')
+        for rule, got, n in short:
+            print(f'NOTE: rule {rule} matched {got} instances, fewer than the {n} confirmed on the reference tree (the changed code took part of the analysis out of its reach)')
         unlisted = []; listed = []
         seen_keys = set()
         for o in bad:
